@@ -711,7 +711,8 @@ def truncation_mask(S, tol=0, tol_block=0,
             Smask._data[slice(*sl.slcs[0])] = False
 
     temp_data = S._data * Smask.data
-    above_tol = temp_data > tol * S.config.backend.max_abs(temp_data)
+    max_temp = S.config.backend.max_abs(temp_data)
+    above_tol = (temp_data > tol * max_temp) & Smask.data  # entries rejected block-wise do not compete globally
     D_tol = S.config.backend.sum_elements(above_tol).item()
     D_total = min(D_total, D_tol)
 
@@ -719,7 +720,7 @@ def truncation_mask(S, tol=0, tol_block=0,
         Smask._data[:] = False
         return Smask
 
-    inds = S.config.backend.argsort(temp_data)
+    inds = S.config.backend.argsort(temp_data - (~Smask.data) * (2 * max_temp + 1))  # rejected entries rank below all others
 
     if truncate_multiplets and D_total < len(inds):
         gap = -1
